@@ -1761,3 +1761,24 @@ def trough_composition_ok(ex, L, name, columns, column_names, initial_volumes):
         for j in range(i):
             conj.append(z3.Not(zbool(unwrap_bool(ops.equals(ex, ks[i], ks[j])))))
     return mk_bool(z3.And(*conj)) if conj else True
+
+
+# ----------------------------------------------------------------------------- well-array helpers of transform.py (C08 / C15)
+
+
+@spec
+def index_dict_ok(ex, d, R, C):
+    """d maps exactly the ids well(r, c+1), r < R, c < C, to (r, c)"""
+    i, j = z3.Int(ex.p.fresh_name("ir")), z3.Int(ex.p.fresh_name("ic"))
+    w = WellV(i, j + 1)
+    has = zbool(unwrap_bool(ops.map_has(ex, d, w)))
+    ex.pure += 1
+    try:
+        val = ops.map_get(ex, d, w)
+    finally:
+        ex.pure -= 1
+    items = val.concrete_items()
+    inside = z3.And(i >= 0, i < term(R, "int"), j >= 0, j < term(C, "int"))
+    hit = z3.And(term(items[0], "int") == i, term(items[1], "int") == j)
+    return mk_bool(z3.ForAll([i, j], z3.And(z3.Implies(inside, z3.And(has, hit)),
+                                              z3.Implies(z3.And(i >= 0, i < 26, j >= 0, z3.Not(inside)), z3.Not(has)))))
